@@ -207,6 +207,17 @@ def pairs_and_sorter(seed, lang):
 def _work(job):
     if job[0] == 'chunk':
         return ('chunk',) + chunk(job[1])
+    if job[0] == 'shapes':
+        r = unit_shapes(job[1])
+        r['job'] = 'shapes'
+        return r
+    if job[0] == 'sorter':
+        r = unit_sorter(job[1])
+        r['job'] = 'sorter'
+        return r
+    if job[0] == 'matcher':
+        from props import codeshapes as CS
+        return ('matcher',) + CS.selfcheck_matcher(job[1])
     return ('pairs',) + pairs_and_sorter(job[1], job[2])
 
 
@@ -305,6 +316,18 @@ def _namespace():
     from pyvc import symre
     if 'ns' not in _NS:
         ns = CS.Namespace(['get_distance', 'discipline_sort_key', 'text_discipline_sort_key', 'get_duration_event_time'])
+        # modular step: inside text_discipline_sort_key the call discipline_sort_key(d) returns the value already obtained for
+        # the same argument object on this path (the function is a function of its argument: frame obligation below)
+        from pyvc.core import Ctx
+        inner = ns['discipline_sort_key']
+
+        def dsk_once(d):
+            memo = Ctx.current.__dict__.setdefault('dsk_memo', {})
+            if id(d) not in memo:
+                memo[id(d)] = (d, inner(d))
+            return memo[id(d)][1]
+        ns.globals['discipline_sort_key'] = dsk_once
+        ns.dsk = dsk_once
         a = real_module('athlib.athlon_score')
         agm = real_module('athlib.wma.agegrader')
         un = instrument(a.unit_name, shadows=symre.shadows_for(a))
@@ -326,6 +349,7 @@ def unit_shapes(job):
         def run():
             c = ctx()
             s = S.SStr.fresh('s', shape)
+            c.nonrobust_int = 'choose'        # int() of a binary product next to an integer: either neighbour (the contracts allow one short)
 
             def call(name, f, *a):
                 try:
@@ -333,7 +357,7 @@ def unit_shapes(job):
                 except Exception as e:
                     c.oblige('%s/returns-a-value' % name, False, 'raises', meta=dict(exc=type(e).__name__))
                     return False, None
-            ok, k = call('discipline_sort_key', ns['discipline_sort_key'], s)
+            ok, k = call('discipline_sort_key', ns.dsk, s)
             g = sym_expected_group(P, s)
             if ok:
                 c.oblige('discipline_sort_key/returns-a-value', True, 'raises')
@@ -399,6 +423,120 @@ def conc_shape(r):
     s = SH.concretise(shape, r.get('model') or {})
     w = check_code(s) if codes().PAT_EVENT_CODE.match(s) else None
     return dict(call='event code %r' % s, observed=w or 'the run-time contract holds', input=['code', s]), bool(w)
+
+
+def unit_sorter(job):
+    """sort_by_discipline against the CONTRACT of discipline_sort_key (a stub: a missing discipline gets (6, 0, '?'), a code X its
+    symbolic key (gX, dX, X)): for every list of up to three records - dicts and objects, with the discipline A or B (two arbitrary
+    distinct codes whose keys may tie in group and distance), None, or no such field at all - the sorter returns a permutation
+    of the records, non-decreasing in the key, and raises nothing."""
+    import itertools
+    from pyvc import unit as U
+    from pyvc.core import ctx
+    from pyvc.values import SInt, zint
+    u = utils()
+    lo, hi = job
+
+    class Rec(object):
+        pass
+    kinds = ['dictA', 'dictB', 'dictmissing', 'dictnone', 'objA', 'objB', 'objmissing']
+    combos = [c for n in range(0, 4) for c in itertools.product(kinds, repeat=n)][lo:hi]
+    res_all = None
+    for combo in combos:
+        def run():
+            c = ctx()
+            keys = {}
+            for x in 'AB':
+                g, d = z3.Int('g' + x), z3.Int('d' + x)
+                c.declare_input('g' + x, g)
+                c.declare_input('d' + x, d)
+                c.assume(z3.And(g >= 1, g <= 6, d >= 0))
+                keys[x] = (SInt(g), SInt(d), x)
+
+            def stub(disc):
+                if not disc:
+                    return 6, 0, '?'
+                return keys[disc]
+            f = instrument(u.sort_by_discipline, shadows={'discipline_sort_key': stub})
+            items, want = [], []
+            for kd in combo:
+                if kd.startswith('dict'):
+                    it = {'id': len(items)}
+                    if kd[4:] in ('A', 'B'):
+                        it['discipline'] = kd[4:]
+                    elif kd == 'dictnone':
+                        it['discipline'] = None
+                else:
+                    it = Rec()
+                    if kd[3:] in ('A', 'B'):
+                        it.discipline = kd[3:]
+                items.append(it)
+                want.append(keys[kd[-1]] if kd[-1] in 'AB' else (6, 0, '?'))
+            try:
+                out = f(list(items))
+            except Exception as e:
+                c.oblige('sort_by_discipline/returns-a-value', False, 'raises', meta=dict(exc=type(e).__name__, records=list(combo)))
+                return None
+            c.oblige('sort_by_discipline/returns-a-value', True, 'raises')
+            perm = isinstance(out, list) and sorted(map(id, out)) == sorted(map(id, items))
+            c.oblige('sort_by_discipline/permutation-of-the-records', bool(perm), 'post', meta=dict(records=list(combo)))
+            if perm:
+                kk = [want[[id(x) for x in items].index(id(o))] for o in out]
+                for a, b in zip(kk, kk[1:]):
+                    le = z3.Or(zint(a[0]) < zint(b[0]), z3.And(zint(a[0]) == zint(b[0]),
+                               z3.Or(zint(a[1]) < zint(b[1]), z3.And(zint(a[1]) == zint(b[1]), z3.BoolVal(a[2] <= b[2])))))
+                    c.oblige('sort_by_discipline/non-decreasing-in-the-key', le, 'post', meta=dict(records=list(combo)))
+            return None
+        r = U.verify('sorter[%s]' % ','.join(combo), run, None, want_sample=False)
+        for x in r['results']:
+            x['ctx'] = dict(records=list(combo))
+        if res_all is None:
+            res_all = r
+        else:
+            res_all['results'] += r['results']
+            res_all['paths'] += r['paths']
+            res_all['wall'] += r['wall']
+    res_all['unit'] = 'sorter[%d:%d]' % (lo, hi)
+    res_all['fns'] = [instrument(u.sort_by_discipline).describe()]
+    return res_all
+
+
+def conc_sorter(r):
+    """the counter-model as a list of records with real codes whose keys realise the model's order"""
+    u = utils()
+    m = r.get('model') or {}
+    recs = r['ctx']['records']
+    # two real codes: equal group and distance when the model ties them, else different
+    tie = m.get('gA') == m.get('gB') and m.get('dA') == m.get('dB')
+    A, B = ('100', '100 ') if tie else ('100', '200')
+    # '100' and '100 ' are not both codes; use two spellings with the same key components instead
+    if tie:
+        A, B = '100', '100'
+
+    class Rec(object):
+        pass
+    items = []
+    for kd in recs:
+        val = {'A': A, 'B': B}.get(kd[-1])
+        if kd.startswith('dict'):
+            it = {'id': len(items)}
+            if val is not None:
+                it['discipline'] = val
+            elif kd == 'dictnone':
+                it['discipline'] = None
+        else:
+            it = Rec()
+            if val is not None:
+                it.discipline = val
+        items.append(it)
+    try:
+        out = u.sort_by_discipline(list(items))
+        kk = [u.discipline_sort_key(x.get('discipline') if isinstance(x, dict) else getattr(x, 'discipline', None)) for x in out]
+        bad = sorted(map(id, out)) != sorted(map(id, items)) or kk != sorted(kk)
+        obs = 'order %r' % (kk,)
+    except Exception as e:
+        bad, obs = True, 'raises %s' % type(e).__name__
+    return dict(call='sort_by_discipline(records %r with codes A=%r B=%r)' % (recs, A, B), observed=obs, input=['sorter', recs, A, B]), bad
 
 
 def format_order_lemma(run):
@@ -502,6 +640,11 @@ def _rec(run, name, v, w, callfmt, bad_on_real):
 
 
 def replay(rep):
+    if rep['input'][0] == 'sorter':
+        r, bad = conc_sorter(dict(ctx=dict(records=rep['input'][1]), model=rep.get('model')))
+        print('replay %s: %s -> %s' % (rep['obligation'], r['call'], r['observed']))
+        print('VIOLATION reproduced' if bad else 'not reproduced on this tree')
+        return 1 if bad else 0
     s = rep['input'][1]
     w = check_code(s) if codes().PAT_EVENT_CODE.match(s) else 'not an event code'
     print('replay %s: %r -> %r' % (rep['obligation'], s, w))
@@ -512,7 +655,7 @@ def replay(rep):
 
 def main(tier, seed):
     run = report.Run(PROP, tier, seed)
-    run.expected_min_obligations = 3
+    run.expected_min_obligations = 3000
     run.level_claim = 'other'
     run.explanation = __doc__
     run.assume('re semantics as in C04 (translator validated there)', 'z3 regex solver',
@@ -529,12 +672,59 @@ def main(tier, seed):
     lang = language()
     step = 4000
     J = [('chunk', lang[i:i + step]) for i in range(0, len(lang), step)] + [('pairs', seed, lang)]
+    # symbolic: the seven functions on every shape of the language (all contents of a shape at once)
+    from props import codeshapes as CS
+    from pyvc import unit as U
+    shp = CS.shape_sets(tier)
+    njobs = max(1, min(96, len(shp) // 20))
+    J += [('shapes', shp[i::njobs]) for i in range(njobs)]        # interleaved: the expensive families are spread over the jobs
+    ncomb = sum(7 ** n for n in range(0, 4))
+    J += [('sorter', (i, min(i + 25, ncomb))) for i in range(0, ncomb, 25)]
+    rnd = random.Random(seed)
+    probe = [rnd.choice(lang) for _ in range(400)]
+    probe += [''.join(rnd.choice('xQ!_-0Z# \n9.') if rnd.random() < 0.15 else ch for ch in s) for s in probe[:200]] + ['100\n', '', '\n', ' 100', '4x100\n\n']
+    J += [('matcher', probe[i::4]) for i in range(4)]
     results = report.pool_map(_work, J)
+    for lr in format_order_lemma(run):
+        U.absorb(run, lr)
     n = 0
     allbad = []
+    nshape = 0
     for res in results:
-        if isinstance(res, dict):
+        if isinstance(res, dict) and '_crash' in res:
             run.checker_error(res['_crash'])
+            continue
+        if isinstance(res, dict):
+            nshape += res.get('nshapes', 0)
+
+            def on_refuted(r, _res):
+                if 'records' in r.get('ctx', {}):
+                    rep, bad = conc_sorter(r)
+                    rep = dict(rep, model=r.get('model'), unit=_res['unit'], solver='z3 sat')
+                    if bad:
+                        if sum(1 for v in run.violations if v['obligation'] == r['name']) < 6:
+                            run.violation(r['name'], rep, True)
+                    else:
+                        run.spurious_model(r['name'], rep)
+                    return
+                rep, bad = conc_shape(r)
+                rep = dict(rep, model=r.get('model'), unit=_res['unit'], solver='z3 sat', shape=CS.show([c if isinstance(c, str) else __import__('pyvc.sstr').sstr.CC(c) for c in r['ctx']['shape']]))
+                if bad:
+                    e = run.match_known(r['name'], dict(what=rep['observed'], code=rep['input'][1]))
+                    if e:
+                        run.known_finding(e)
+                    elif sum(1 for v in run.violations if v['obligation'] == r['name']) < 6:
+                        run.violation(r['name'], rep, True)       # at most six replay files per obligation name; all are counted as refuted
+                else:
+                    run.spurious_model(r['name'], rep)
+            U.absorb(run, res, on_refuted)
+            continue
+        if res[0] == 'matcher':
+            ok = not res[2]
+            run.record('symbolic-matcher-agrees-with-re/%d-comparisons' % res[1], 'ground', 'proved' if ok else 'unknown', 'ground-evaluation', 0.0, 'matcher',
+                       None if ok else 'the symbolic matcher disagrees with re: %r' % (res[2][:2],))
+            if not ok:
+                run.checker_error('symbolic regex matcher disagrees with re: %r' % (res[2][:3],))
             continue
         if res[0] == 'chunk':
             n += res[1]
@@ -558,6 +748,9 @@ def main(tier, seed):
         else:
             run.violation('contracts-hold-on-the-enumerated-language', dict(call='event code %r (and %d more)' % (ss[0], len(ss) - 1), observed=w,
                                                                             more=ss[:10], input=['code', ss[0]]), True)
+    run.extra['shapes_explored'] = nshape
+    for d in _namespace()[0].describe() + [_namespace()[1].describe(), _namespace()[2].describe()]:
+        run.add_function(d)
     run.bounded.append(dict(what='run-time contracts of the seven functions on the language of PAT_EVENT_CODE enumerated from its syntax tree',
                             bound='%d codes (repeats <= min+1, every class member once, both cases) + 200000 random key pairs + 300 lists' % len(lang),
                             evaluations=n, distinct_nontrivial=len(lang), decides='exception-freedom / grouping / ordering clauses (bounded)'))
